@@ -571,7 +571,11 @@ class ConfigTypeField(BaseField):
         self.config_type = config_type
 
     def __setdefault__(self, cfg: "Config") -> None:
-        cfg._set_default_value(self._key, self.config_type(cfg))
+        sub = self.config_type(cfg)
+        if isinstance(sub, Config):
+            # the wrapped schema has no key of its own; error paths need the field's key
+            sub._key = self._key
+        cfg._set_default_value(self._key, sub)
 
     def __call__(self, cfg: Optional["Config"] = None) -> "ConfigType":
         """
